@@ -10,18 +10,22 @@ EXTENDS JsonLex, TLC
 CONSTANTS MaxW,      \* witnesses are told apart by the number of whitespace bytes between tokens inside the fragment's own containers, up to MaxW
                      \* (the implementation removes such bytes from foreign members, so what follows them is shifted)
           MaxD,      \* containers a fragment may open above its context
-          MaxLen     \* bound on the witness length (only reached under -simulate)
+          MaxLen,    \* bound on the witness length (only reached under -simulate)
+          Ctxs       \* the host contexts explored
 VARIABLES s, h, c, w
 vars == <<s, h, c, w>>
 view == <<s, c, w>>
 \* contexts: 1 whole text; 2 value of the last member of the root object; 3 first element of an array inside the root
 \* object (a coordinate); 4 value of a member of an object inside the root object (a property); 5 value of the first
-\* member of the root object (another member follows)
-Base == <<  <<>>, <<"o">>, <<"o", "a">>, <<"o", "o">>, <<"o">>  >>
-Suffix == <<  <<>>, <<RBrace>>, <<Comma, Digit, RBrack, RBrace>>, <<RBrace, RBrace>>, <<Comma, Quote, Other, Quote, Colon, Quote, Other, Quote, RBrace>>  >>
-Init == \E k \in 1..5 : c = k /\ s = S("val", Base[k]) /\ h = <<>> /\ w = 0
+\* member of the root object (another member follows); 6 like 3, but only the atoms a number is made of are tried
+\* (used under -simulate: long random number spellings, legal or broken by one atom)
+Base == <<  <<>>, <<"o">>, <<"o", "a">>, <<"o", "o">>, <<"o">>, <<"o", "a">>  >>
+Suffix == <<  <<>>, <<RBrace>>, <<Comma, Digit, RBrack, RBrace>>, <<RBrace, RBrace>>, <<Comma, Quote, Other, Quote, Colon, Quote, Other, Quote, RBrace>>,
+              <<Comma, Digit, RBrack, RBrace>>  >>
+NumAtoms == {Zero, Digit, Minus, Plus, Dot, AtE, BigE}
+Init == \E k \in Ctxs : c = k /\ s = S("val", Base[k]) /\ h = <<>> /\ w = 0
 Next == /\ s.m # "dead" /\ Len(h) < MaxLen
-        /\ \E a \in Atoms : LET t == Step(s, a) IN
+        /\ \E a \in (IF c = 6 THEN NumAtoms ELSE Atoms) : LET t == Step(s, a) IN
               /\ t.m # "dead" /\ Len(t.st) <= Len(Base[c]) + MaxD
               /\ s' = t /\ h' = Append(h, a) /\ c' = c
               /\ w' = IF IsWs(a) /\ s.m \notin {"str", "esc", "u1", "u2", "u3", "u4"} /\ Len(s.st) > Len(Base[c]) /\ w < MaxW THEN w + 1 ELSE w
@@ -33,7 +37,7 @@ CompleteOK == LET t == Run(s, FinishToken(s)) IN
                  Len(t.st) >= Len(Base[c]) /\ SubSeq(t.st, 1, Len(Base[c])) = Base[c] /\ (s.m = "done" => c = 1)
                  => Valid(c, h \o CompleteTo(s, Len(Base[c])))
 Emit == /\ PrintT(ToString(<<"LEX", c, h, Valid(c, h)>>))
-        /\ \A a \in Atoms : LET t == Step(s, a)
+        /\ \A a \in (IF c = 6 THEN NumAtoms ELSE Atoms) : LET t == Step(s, a)
                                 tx == Append(h, a) \o CompleteTo(IF t.m = "dead" THEN s ELSE t, Len(Base[c]))
                             IN PrintT(ToString(<<"LEX", c, tx, Valid(c, tx)>>))
 =============================================================================
